@@ -225,12 +225,58 @@ impl CallArgs {
     }
 }
 
+/// Extended processor state of a thread (x87, SSE, AVX, ...): everything a function may
+/// clobber that `user_regs_struct` does not carry.
+struct ExtendedState(Vec<u8>);
+
+impl ExtendedState {
+    const NT_X86_XSTATE: usize = 0x202;
+    /// Upper bound for the XSAVE area (AVX-512 and AMX included).
+    const MAX_SIZE: usize = 16 * 1024;
+
+    fn regset(
+        request: nix::libc::c_uint,
+        pid: nix::unistd::Pid,
+        buf: &mut [u8],
+    ) -> Result<usize, Error> {
+        let mut iov = nix::libc::iovec {
+            iov_base: buf.as_mut_ptr().cast(),
+            iov_len: buf.len(),
+        };
+        // SAFETY: `iov` describes `buf`, the kernel reads or writes at most `iov_len` bytes of it
+        let res = unsafe {
+            nix::libc::ptrace(
+                request,
+                pid.as_raw(),
+                Self::NT_X86_XSTATE,
+                &mut iov as *mut nix::libc::iovec,
+            )
+        };
+        if res == -1 {
+            return Err(Error::Ptrace(nix::errno::Errno::last()));
+        }
+        Ok(iov.iov_len)
+    }
+
+    fn current(pid: nix::unistd::Pid) -> Result<Self, Error> {
+        let mut buf = vec![0u8; Self::MAX_SIZE];
+        let len = Self::regset(nix::libc::PTRACE_GETREGSET, pid, &mut buf)?;
+        buf.truncate(len);
+        Ok(Self(buf))
+    }
+
+    fn persist(&mut self, pid: nix::unistd::Pid) -> Result<(), Error> {
+        Self::regset(nix::libc::PTRACE_SETREGSET, pid, &mut self.0).map(|_| ())
+    }
+}
+
 /// Call context (or ccx). Program state before a call.
 struct CallContext<'a> {
     dbg: &'a Debugger,
     pid: nix::unistd::Pid,
     pc: RelocatedAddress,
     regs: RegisterMap,
+    ext_state: ExtendedState,
     text: usize,
 }
 
@@ -241,18 +287,21 @@ impl<'a> CallContext<'a> {
         let text = read_memory_by_pid(pid, pc.into(), size_of::<u64>()).map_err(Error::Ptrace)?;
         let text = usize::from_ne_bytes(text.try_into().expect("unexpected size"));
         let regs = RegisterMap::current(pid)?;
+        let ext_state = ExtendedState::current(pid)?;
 
         Ok(Self {
             dbg,
             pid,
             pc,
             regs,
+            ext_state,
             text,
         })
     }
 
-    fn retrieve_original_state(self) -> Result<(), Error> {
+    fn retrieve_original_state(mut self) -> Result<(), Error> {
         self.regs.clone().persist(self.pid)?; // TODO clone
+        self.ext_state.persist(self.pid)?;
         self.dbg.write_memory(self.pc.as_usize(), self.text)?;
         Ok(())
     }
